@@ -204,6 +204,20 @@ def check(ctx):
     reads = {f for (a, f, v), ids in accesses.items() if cv.id in ids}
     ctx.require({"met_variable_definitions", "met_iterator_definitions"} <= reads, "R-COVER", "leaf:contains_variable", "a use is resolved against both scalar and iterator definitions",
                 "contains_variable reads %s" % sorted(reads))
+    # "defined EARLIER": a use is covered only by a definition whose span is strictly smaller than the span of the using
+    # instruction — both comparisons in contains_variable are strict `<` (with `<=` an instruction's own output would count
+    # as an earlier definition of the name it reads)
+    ctx.clause("R-OP contains_variable: definition span strictly before the use span (both comparisons are `<`, definition on the left)")
+    cmps = []
+    for g_, p_ in lib.family(F, cv):
+        for c_ in g_.calls:
+            if "core::cmp" in c_.path and c_.path.split("::")[-1] in ("lt", "le", "gt", "ge", "eq", "ne") and any("span::Span" in t for t in c_.atys):
+                a0, a1 = p_.operand(c_.args[0]), p_.operand(c_.args[1])
+                use_side = [i for i, a in enumerate((a0, a1)) if lib.mentions_param(a, "key_span")]
+                cmps.append((c_.path.split("::")[-1], use_side))
+    okc = len(cmps) == 2 and all((op == "lt" and us == [1]) or (op == "gt" and us == [0]) for op, us in cmps)
+    ctx.require(okc, "R-OP", "leaf:strictly-earlier", "both span comparisons are `definition < use`", "contains_variable compares spans as %s (expected two strict `definition < use` tests): a name defined by the very instruction that reads it, or later, would count as defined" % cmps,
+                sample={"comparisons": cmps})
     for n in ("met_scalar_wl", "met_canon_stream_wl", "met_canon_stream_map_wl", "met_variable_wl"):
         f = F.fn("validator::VariableValidator::" + n)
         r, _ = F.reachable_fns([f])
